@@ -196,6 +196,48 @@ def sc_skreg_unfittable(d, n, normal, missing=NAN):
     d.witness(0 < len(lab) < n, "some_unlabeled")
 
 
+def sc_skclf_unfittable(d, n, classes):
+    """the wrapped classifier cannot be fitted: the fallback probabilities of fit(X, y) equal those of a fit on the labeled
+    subset - the unlabeled samples do not enter the label statistics, whatever the class labels look like (a class
+    labelled -1 coincides with the library's internal code for a missing label)"""
+    from sklearn.base import BaseEstimator, ClassifierMixin
+    from skactiveml.classifier import SklearnClassifier
+
+    class Unfittable(ClassifierMixin, BaseEstimator):
+        def fit(self, X, y, sample_weight=None):
+            raise ValueError("this estimator cannot be fitted")
+
+        def predict_proba(self, X):
+            raise NotImplementedError
+
+        def predict(self, X):
+            raise NotImplementedError
+    K = len(classes)
+    idx = [d.choose(f"label{i}", [-1] + list(range(K))) for i in range(n)]
+    lab = [i for i in range(n) if idx[i] >= 0]
+    xs = [d.fl(f"x{i}") for i in range(n)]
+    X = d.arr([[x] for x in xs], shape=(n, 1))
+    y = d.arr([NAN if k < 0 else float(classes[k]) for k in idx])
+    Xq = d.arr([[d.fl("q0")]], shape=(1, 1))
+    try:
+        full = SklearnClassifier(Unfittable(), classes=list(classes), random_state=0).fit(X, y)
+        pf = full.predict_proba(Xq)
+        if lab:
+            sub = SklearnClassifier(Unfittable(), classes=list(classes), random_state=0).fit(
+                d.arr([[xs[i]] for i in lab], shape=(len(lab), 1)), d.arr([float(classes[idx[i]]) for i in lab]))
+            ps = sub.predict_proba(Xq)
+    except (core.Unencodable, core.PathAbort):
+        raise
+    except Exception as e:
+        d.prove(False, "fallback_fit_predict_succeed", info=dict(error=repr(e)[:160]))
+        return
+    if lab:
+        d.prove(d.eq_arr(pf, ps, 1e-12), "fallback_probabilities_equal_fit_on_labeled_subset", info=dict(labeled=len(lab)))
+    else:
+        d.prove(d.eq_arr(pf, d.arr([[1.0 / K] * K], shape=(1, K)), 1e-12), "fallback_uniform_without_labels")
+    d.witness(0 < len(lab) < n, "some_unlabeled")
+
+
 def sc_nic_int(d, n):
     """count targets handed over as an INTEGER array with the sentinel -1: the regressor stores exactly the labeled rows"""
     from skactiveml.regressor import NICKernelRegressor
@@ -257,6 +299,10 @@ HARNESSES.append(dual_harness(
     "sklearn_regressor_unfittable", sc_skreg_unfittable,
     lambda tier: [dict(n=n, normal=nm, missing=ms) for n in _ns(tier) for nm in (False, True) for ms in (NAN, -1.0)],
     [UNITS[1], UNITS[7], UNITS[8], "skactiveml.regressor._wrapper:SklearnRegressor.predict"], required_witnesses=("some_unlabeled",)))
+HARNESSES.append(dual_harness(
+    "sklearn_classifier_unfittable", sc_skclf_unfittable,
+    lambda tier: [dict(n=n, classes=cs) for n in _ns(tier) for cs in ([0, 1], [-1, 1], [1, -1, 0])],
+    [UNITS[0], UNITS[7], "skactiveml.classifier._wrapper:SklearnClassifier.predict_proba"], required_witnesses=("some_unlabeled",)))
 HARNESSES.append(dual_harness(
     "refit_sees_only_labeled", _refit,
     lambda tier: [dict(kind=k, n1=2, n2=2) for k in ("classifier", "regressor")],
